@@ -168,6 +168,51 @@ func b12check(s *b12stats, in string, roundTrip bool) (fn *ast.FileNode, accepte
 	} else {
 		s.rejected++
 	}
+	// the AST a strict (aborting) reporter leaves behind is just as usable
+	var strictFn *ast.FileNode
+	func() {
+		defer func() {
+			if r := recover(); r != nil {
+				s.fail("parse-panic", "Parse with the default (aborting) reporter panics on %q: %v", in, r)
+			}
+		}()
+		strictFn, _ = Parse("t.proto", strings.NewReader(in), reporter.NewHandler(nil))
+		if strictFn == nil {
+			s.fail("nil-ast", "Parse with the default (aborting) reporter returns a nil AST for %q", in)
+		}
+	}()
+	for _, tree := range []*ast.FileNode{fn, strictFn} {
+		if tree == nil {
+			continue
+		}
+		func() {
+			defer func() {
+				if r := recover(); r != nil {
+					s.fail("nodeinfo-panic", "position information of the AST of %q (strict reporter: %v) panics: %v", in, tree == strictFn, r)
+				}
+			}()
+			ast.Walk(tree, &ast.SimpleVisitor{DoVisitNode: func(n ast.Node) error {
+				ni := tree.NodeInfo(n)
+				a, b := ni.Start(), ni.End()
+				if a.Line > b.Line || (a.Line == b.Line && a.Col > b.Col) {
+					s.fail("span-order", "input %q: node %T starts at %d:%d after it ends at %d:%d", in, n, a.Line, a.Col, b.Line, b.Col)
+				}
+				return nil
+			}})
+		}()
+		// a reporter that looks at the position of every error and warning
+		func() {
+			defer func() {
+				if r := recover(); r != nil {
+					s.fail("result-panic", "ResultFromAST with a position-reading reporter panics on %q (AST from strict reporter: %v): %v", in, tree == strictFn, r)
+				}
+			}()
+			h := reporter.NewHandler(reporter.NewReporter(
+				func(err reporter.ErrorWithPos) error { _ = err.GetPosition(); return nil },
+				func(w reporter.ErrorWithPos) { _ = w.GetPosition() }))
+			_, _ = ResultFromAST(tree, true, h)
+		}()
+	}
 	// descriptor conversion never panics, whatever the reporter does
 	for _, validate := range []bool{true, false} {
 		for _, strict := range []bool{false, true} {
